@@ -105,3 +105,108 @@ def arg_uses_compare_only(fn, argidx, allow=("icmp", "switch", "zext", "sext", "
             else:
                 bad.append(u.op)
     return (not bad), bad, consts
+
+
+# ---------------------------------------------------------------- interprocedural cell evaluation
+class InlineHooks(flow.Hooks):
+    """cell evaluation with selected callees evaluated in place (their events are spliced into the caller's trace and
+    their return value flows back).  Events: stores to fields reachable from pointer arguments, calls to `watch`."""
+    cap = 256
+
+    def __init__(self, fn, pdb, cell, inline, watch=(), oracle=None, depth=0, argmap=None, call_values=None):
+        self.fn = fn
+        self.pdb = pdb
+        self.cell = cell or {}
+        self.inline = set(inline)
+        self.watch = set(watch)
+        self.oracle = oracle
+        self.depth = depth
+        self.argmap = argmap or {}      # callee arg index -> caller-level description of the pointer
+        self.call_values = call_values or {}
+
+    def init_facts(self, fn):
+        f = {}
+        for k, v in self.cell.items():
+            av = v if isinstance(v, tuple) and v and v[0] in ("in", "nin") else flow.av_in(v)
+            if isinstance(k, int):
+                f["a%d" % k] = av
+            elif isinstance(k, tuple):
+                f[("M", k)] = av
+        return f
+
+    def pinned(self, pe):
+        return ("M", pe) in self.init_facts(self.fn)
+
+    def decide(self, inst, E):
+        if self.oracle is None:
+            return None
+        return self.oracle(inst, inst["pred"], E.flow.expr(inst["a"]), E.flow.expr(inst["b"]), E)
+
+    def _ptr_name(self, e):
+        """describe a pointer expression in terms of the top-level function's arguments"""
+        r = vf.root_of(e)
+        if isinstance(r, tuple) and r[0] == "arg" and r[1] in self.argmap:
+            return self.argmap[r[1]]
+        if isinstance(r, tuple) and r[0] == "arg":
+            return "arg%d" % r[1]
+        return vf.show(r)
+
+    def on_inst(self, inst, prop, E):
+        if inst.op == "store":
+            pe = E.flow.expr(inst["ptr"])
+            f = vf.last_field(pe)
+            root = vf.root_of(pe)
+            if f is not None and not (isinstance(root, tuple) and root[0] == "alloca"):
+                v = E.val(inst["val"])
+                return prop + (("store", self._ptr_name(pe), f, flow.av_single(v) if v is not None else None,
+                                vf.show(E.flow.expr(inst["val"])) if flow.av_single(v) is None else None),)
+            return prop
+        if inst.op == "call" and inst.callee:
+            cal = inst.callee
+            if cal in self.inline and self.depth < 4:
+                g = self.pdb.resolve(self.fn, cal)
+                if g is not None:
+                    cell = {}
+                    amap = {}
+                    for k, a in enumerate(inst.args):
+                        av = E.val(a)
+                        if av is not None:
+                            cell[k] = av
+                        ae = E.flow.expr(a)
+                        amap[k] = self._ptr_name(ae)
+                    h = InlineHooks(g, self.pdb, cell, self.inline, self.watch, None, self.depth + 1, amap, self.call_values)
+                    fl = flow.Flow(g, h)
+                    fl.run()
+                    outs = []
+                    seen = set()
+                    for (ri, p2, av, facts, tr) in fl.ret_states:
+                        key = (p2, av)
+                        if key in seen:
+                            continue
+                        seen.add(key)
+                        d = {"__facts__": True}
+                        if av is not None:
+                            d[inst.ref] = av
+                        outs.append((prop + p2, d))
+                    if outs:
+                        return outs
+            if cal in self.watch:
+                args = tuple(flow.av_single(E.val(a)) for a in inst.args)
+                return prop + (("call", cal, args),)
+        return prop
+
+    def call_value(self, inst, E):
+        cv = self.call_values.get(inst.callee)
+        if cv is None:
+            return None
+        return cv(inst, E) if callable(cv) else cv
+
+
+def eval_inline(fn, pdb, cell, inline, watch=(), oracle=None, call_values=None):
+    h = InlineHooks(fn, pdb, cell, inline, watch, oracle, 0, None, call_values)
+    fl = flow.Flow(fn, h)
+    fl.run()
+    outs = []
+    for (inst, prop, av, facts, tr) in fl.ret_states:
+        outs.append({"ret": av, "events": prop, "inst": inst, "trace": tr})
+    return outs
